@@ -6,6 +6,7 @@ mod craft;
 mod e1;
 mod fd;
 mod hostile;
+mod pairs;
 mod sim;
 mod wire;
 
@@ -22,8 +23,17 @@ fn main() {
         "C01" | "C02" | "C03" | "C04" | "C05" | "C12" | "C13" | "C16" | "C20" => {
             if let Some(p) = &args.replay {
                 e1::replay(&args, p)
+            } else if args.prop == "C04" || args.prop == "C20" {
+                finish(pairs::extend_outcome(&args, e1::check(&args)))
             } else {
                 finish(e1::check(&args))
+            }
+        }
+        "C14" => {
+            if let Some(p) = &args.replay {
+                e1::replay(&args, p)
+            } else {
+                finish(pairs::check_c14(&args))
             }
         }
         "C10" | "C11" => finish(fd::check(&args, &args.prop)),
